@@ -3,38 +3,42 @@ import HyperModel.Proofs.Crash
 # C18 A restarted node recovers the accepted chain after a crash at any point
 
 Model: `HyperModel.Crash`. A history is any list of pipeline events (`indexUpdate`, `enqueue`,
-`writeResults`, `commitState`, `notify`) from a fresh node; a crash after any prefix keeps only
-the persistent markers `(idx, st, res)`. `restart` transcribes the start-up code as it is
-(with `/verif/fixes/C18-pebble-compact-nil-limit.patch`; without it no start after an unclean
-shutdown succeeds at all).
+`writeResults`, `commitState`, `notifyA`, `notifyB` — two accepted-subscribers, notified one after
+the other) from a fresh node; a crash after any prefix keeps only the persistent markers
+`(idx, st, res)`. `restart` transcribes the start-up after
+`/verif/fixes/C18-restart-index-ahead.patch`; `restartOrig` the start-up before it.
 
-**The property is false for the unchanged code** (`c18_counterexample`, `c18_counterexample_depth1`):
-start-up succeeds *iff* the index height equals the state height (`restart_succeeds_iff`), i.e.
-only if no accepted block was waiting for its state commit when the node stopped. The full
-statements
+* Before the repair the first half of the property is false: start-up succeeds *iff* the index
+  height equals the state height (`restart_orig_succeeds_iff`, `c18_counterexample_unrepaired`,
+  `c18_counterexample_depth1_unrepaired`).
+* With the repair, `restart_succeeds_and_agrees` holds at full strength (every crash point of
+  every history).
+* The second half (every accepted block delivered to every subscriber at least once across the
+  restart) is still false when the index is ahead of the state and the node stopped between the
+  state commit of a block and its delivery to a subscriber (`c18_counterexample_notification`).
+  Full statement, not provable:
 
-    restart_succeeds_and_agrees :
-      ∀ evs, ∃ re, restart (run Node.init evs).p = .ok (run Node.init evs).p.idx re ∧ …
-    subscribers_at_least_once_in_order :
-      ∀ evs h, 1 ≤ h ≤ idx → h ∈ notified-before ∨ h ∈ notified-at-restart
+      subscribers_at_least_once_in_order :
+        ∀ evs b, 1 ≤ b → b ≤ idx → (b ∈ notifiedA ∨ b ∈ re) ∧ (b ∈ notifiedB ∨ b ∈ re)
 
-are therefore proved only under the hypothesis `idx = st` (`…_partial`), and, at full strength,
-for the repair design `restartRepaired` (`repair_design_…`), which is *not* applied to /repo.
+  It is proved under the hypothesis `idx = st ∨ stage < 2` (`…_partial`), and at full strength
+  for the further repair design `restartRenotify` (model only, not applied to /repo).
 -/
 namespace HyperModel.Props.C18
 open HyperModel.Crash
 
-/-- every reachable node satisfies the pipeline invariant (queue = the consecutive blocks after
-the last one that left the pipeline; markers consistent with the stage of the head block) -/
+/-- every reachable node satisfies the pipeline invariant -/
 theorem reachable_inv (evs : List Ev) : Inv (run Node.init evs) := run_inv Inv.init evs
 
 /-- reachable persistent markers: `st ≤ idx`, and the results height is the state height or one
 above it (never above the index) -/
 theorem reachable_markers (evs : List Ev) :
-    let p := (run Node.init evs).p
-    p.st ≤ p.idx ∧ (p.res = none → p.st = 0) ∧ (∀ r, p.res = some r → (r = p.st ∨ r = p.st + 1) ∧ r ≤ p.idx ∧ 1 ≤ r) := by
+    (run Node.init evs).p.st ≤ (run Node.init evs).p.idx
+    ∧ ((run Node.init evs).p.res = none → (run Node.init evs).p.st = 0)
+    ∧ (∀ r, (run Node.init evs).p.res = some r →
+        (r = (run Node.init evs).p.st ∨ r = (run Node.init evs).p.st + 1) ∧ r ≤ (run Node.init evs).p.idx ∧ 1 ≤ r) := by
   obtain ⟨d, _, hd, hq, hs⟩ := reachable_inv evs
-  rcases hs with ⟨_, h2, h3⟩ | ⟨_, hne, h2, h3⟩ | ⟨_, hne, h2, h3⟩
+  rcases hs with ⟨_, h2, h3, _⟩ | ⟨_, hne, h2, h3, _⟩ | ⟨_, hne, h2, h3, _⟩ | ⟨_, hne, h2, h3, _⟩
   · refine ⟨by omega, ?_, ?_⟩
     · intro _; by_cases h0 : d = 0 <;> simp_all
     · intro r hr; by_cases h0 : d = 0
@@ -46,14 +50,98 @@ theorem reachable_markers (evs : List Ev) :
     refine ⟨by omega, by simp [h3], ?_⟩
     intro r hr; rw [h3] at hr; injection hr with hr; omega
 
-/-- **Exactly when start-up succeeds**: after a crash at any point of any history, the restart
-returns (the block at the index height) iff the index is not ahead of the committed state. -/
-theorem restart_succeeds_iff (evs : List Ev) :
-    (∃ re, restart (run Node.init evs).p = .ok (run Node.init evs).p.idx re)
+/-- **Write order**: in every reachable persistent state the stored execution results belong to
+the block at the state height or a later one (`VM.AcceptBlock` writes the results before it
+commits the state). The start-up relies on it. -/
+theorem results_written_before_state_commit (evs : List Ev) :
+    (run Node.init evs).p.st = 0 ∨ ∃ r, (run Node.init evs).p.res = some r ∧ (run Node.init evs).p.st ≤ r := by
+  obtain ⟨_, hnone, hsome⟩ := reachable_markers evs
+  cases hr : (run Node.init evs).p.res with
+  | none => exact Or.inl (hnone hr)
+  | some r => have := hsome r hr; exact Or.inr ⟨r, rfl, by omega⟩
+
+/-- **restart_succeeds_and_agrees** (full strength, repaired start-up): after a crash at any point
+of any history the restart succeeds, its last accepted block is the never-crashed node's
+(`idx`), it re-processes and re-notifies exactly `st+1 .. idx` and then `idx` once more, and it
+leaves the persistent state of the never-crashed node. -/
+theorem restart_succeeds_and_agrees (evs : List Ev) :
+    restart (run Node.init evs).p
+        = .ok (run Node.init evs).p.idx (reprocess (run Node.init evs).p.st (run Node.init evs).p.idx ++ [(run Node.init evs).p.idx])
+    ∧ afterRestart (run Node.init evs).p = reference (run Node.init evs).p.idx := by
+  obtain ⟨hle, hnone, hsome⟩ := reachable_markers evs
+  generalize (run Node.init evs).p = p at *
+  have hr : restart p = .ok p.idx (reprocess p.st p.idx ++ [p.idx]) := by
+    unfold restart
+    by_cases h0 : p.idx = 0
+    · have hst : p.st = 0 := by omega
+      simp [h0, hst, reprocess]
+    · have hlt : ¬ p.idx < p.st := by omega
+      rw [if_neg h0, if_neg hlt]
+      cases hres : p.res with
+      | none => simp [hnone hres]
+      | some r =>
+        obtain ⟨h1, h2, _⟩ := hsome r hres
+        by_cases hrs : r = p.st
+        · simp [hrs]
+        · have h3 : r = p.st + 1 ∧ p.st < p.idx := ⟨by omega, by omega⟩
+          simp [h3]
+  refine ⟨hr, ?_⟩
+  unfold afterRestart reference
+  rw [hr]
+  by_cases h0 : p.idx = 0
+  · cases hres : p.res with
+    | none => simp [h0]
+    | some r => have := hsome r hres; omega
+  · simp [h0]
+
+/-- `subscribers_at_least_once_in_order`, **partial**: if the node did not stop between the state
+commit of a block and the end of its notifications while the index was ahead (`idx = st ∨ stage < 2`),
+every accepted block is, for *each* subscriber, in its log before the crash or among the
+notifications of the start-up; every log is in increasing height order. -/
+theorem subscribers_at_least_once_in_order_partial (evs : List Ev)
+    (h : (run Node.init evs).p.idx = (run Node.init evs).p.st ∨ (run Node.init evs).stage < 2) :
+    (∀ b, 1 ≤ b → b ≤ (run Node.init evs).p.idx →
+        (b ∈ (run Node.init evs).notifiedA
+          ∨ b ∈ reprocess (run Node.init evs).p.st (run Node.init evs).p.idx ++ [(run Node.init evs).p.idx])
+        ∧ (b ∈ (run Node.init evs).notifiedB
+          ∨ b ∈ reprocess (run Node.init evs).p.st (run Node.init evs).p.idx ++ [(run Node.init evs).p.idx]))
+    ∧ (run Node.init evs).notifiedA.Pairwise (· < ·)
+    ∧ (run Node.init evs).notifiedB.Pairwise (· < ·)
+    ∧ (reprocess (run Node.init evs).p.st (run Node.init evs).p.idx ++ [(run Node.init evs).p.idx]).Pairwise (· ≤ ·) := by
+  obtain ⟨d, hn, hd, hq, hs⟩ := reachable_inv evs
+  obtain ⟨hle, _, _⟩ := reachable_markers evs
+  refine ⟨?_, ?_, by rw [hn]; exact List.pairwise_lt_range, ?_⟩
+  · intro b hb1 hb2
+    rw [hn]
+    simp only [List.mem_range, List.mem_append, List.mem_singleton, mem_reprocess]
+    rcases hs with ⟨_, h2, _, hA⟩ | ⟨_, _, h2, _, hA⟩ | ⟨hst, _, h2, _, hA⟩ | ⟨hst, _, h2, _, hA⟩
+    all_goals (rw [hA]; simp only [List.mem_range]; omega)
+  · rcases hs with ⟨_, _, _, hA⟩ | ⟨_, _, _, _, hA⟩ | ⟨_, _, _, _, hA⟩ | ⟨_, _, _, _, hA⟩
+    all_goals (rw [hA]; exact List.pairwise_lt_range)
+  · rw [List.pairwise_append]
+    refine ⟨(reprocess_sorted _ _).imp (fun h => Nat.le_of_lt h), by simp, ?_⟩
+    intro a ha b hb
+    rw [mem_reprocess] at ha; simp at hb; omega
+
+/-- **The remaining violation** (repaired start-up): blocks 1, 2 accepted, crash after the state
+commit of block 1 and before its notification: the restart succeeds and notifies 2, 2 — block 1
+is never delivered. The same for subscriber B alone when the crash falls between A and B. -/
+theorem c18_counterexample_notification :
+    (let n := run Node.init [.indexUpdate, .enqueue, .indexUpdate, .enqueue, .writeResults, .commitState]
+     restart n.p = .ok 2 [2, 2] ∧ 1 ∉ n.notifiedA ∧ 1 ∉ n.notifiedB)
+    ∧ (let n := run Node.init [.indexUpdate, .enqueue, .indexUpdate, .enqueue, .writeResults, .commitState, .notifyA]
+       restart n.p = .ok 2 [2, 2] ∧ 1 ∈ n.notifiedA ∧ 1 ∉ n.notifiedB) := by
+  decide
+
+/-! ### The start-up before the repair -/
+
+/-- before the repair the start-up returns iff the index is not ahead of the committed state -/
+theorem restart_orig_succeeds_iff (evs : List Ev) :
+    (∃ re, restartOrig (run Node.init evs).p = .ok (run Node.init evs).p.idx re)
       ↔ (run Node.init evs).p.idx = (run Node.init evs).p.st := by
   obtain ⟨hle, hnone, hsome⟩ := reachable_markers evs
   generalize (run Node.init evs).p = p at *
-  unfold restart
+  unfold restartOrig
   by_cases h0 : p.idx = 0
   · have : p.st = 0 := by omega
     simp [h0, this]
@@ -74,107 +162,42 @@ theorem restart_succeeds_iff (evs : List Ev) :
       · rw [if_pos ⟨h1, h2⟩]
         simp [h1]
 
-/-- `restart_succeeds_and_agrees`, **partial**: for every history whose crash leaves the index
-at the state height, start-up succeeds, returns the last accepted block of the never-crashed
-node and leaves the same persistent state as the never-crashed node.
-Missing for the full property: the states with `idx > st` (see the counterexamples). -/
-theorem restart_succeeds_and_agrees_partial (evs : List Ev)
-    (h : (run Node.init evs).p.idx = (run Node.init evs).p.st) :
-    restart (run Node.init evs).p = .ok (run Node.init evs).p.idx [(run Node.init evs).p.idx]
-    ∧ afterRestart (run Node.init evs).p = reference (run Node.init evs).p.idx := by
-  obtain ⟨re, hre⟩ := (restart_succeeds_iff evs).2 h
-  obtain ⟨_, hnone, hsome⟩ := reachable_markers evs
-  generalize (run Node.init evs).p = p at *
-  have hr : restart p = .ok p.idx [p.idx] := by
-    unfold restart at hre ⊢
-    by_cases h0 : p.idx = 0
-    · simp [h0]
-    · have hne : ¬ (p.idx ≠ p.st ∧ p.idx ≠ p.st + 1) := fun hh => hh.1 h
-      rw [if_neg h0, if_neg hne, if_pos h] at hre ⊢
-      by_cases hres : p.res = some p.st
-      · rw [if_pos hres, reprocess, ← h]; simp
-      · rw [if_neg hres] at hre; cases hre
-  refine ⟨hr, ?_⟩
-  unfold afterRestart reference
-  rw [hr]
-  by_cases h0 : p.idx = 0
-  · have hst : p.st = 0 := by omega
-    cases hres : p.res with
-    | none => cases p; simp_all
-    | some r => have := hsome r hres; omega
-  · cases p; simp_all
-
-/-- `subscribers_at_least_once_in_order`, **partial** (same hypothesis): every accepted block is
-in the log before the crash or in the notifications of the start-up, and each log is in
-strictly increasing height order. -/
-theorem subscribers_at_least_once_in_order_partial (evs : List Ev)
-    (h : (run Node.init evs).p.idx = (run Node.init evs).p.st) :
-    (∀ b, 1 ≤ b → b ≤ (run Node.init evs).p.idx →
-        b ∈ (run Node.init evs).notified ∨ b ∈ [(run Node.init evs).p.idx])
-    ∧ (run Node.init evs).notified.Pairwise (· < ·) := by
-  obtain ⟨d, hn, hd, hq, hs⟩ := reachable_inv evs
-  refine ⟨?_, by rw [hn]; exact List.pairwise_lt_range⟩
-  intro b hb1 hb2
-  rw [hn]
-  simp only [List.mem_range, List.mem_singleton]
-  rcases hs with ⟨_, h2, _⟩ | ⟨_, hne, h2, _⟩ | ⟨_, hne, h2, _⟩
-  · omega
-  · obtain ⟨x, t, hxt⟩ := List.exists_cons_of_ne_nil hne
-    obtain ⟨_, hle, _⟩ := head_eq hq hxt
-    omega
-  · omega
-
-/-! ### The unchanged code violates the property -/
-
-/-- accept, accept, crash (nothing processed yet): the index is 2 ahead of the state and the
-start-up returns "cannot extract latest output block from invalid state". -/
-theorem c18_counterexample :
+/-- accept, accept, crash: "cannot extract latest output block from invalid state" -/
+theorem c18_counterexample_unrepaired :
     (run Node.init [.indexUpdate, .enqueue, .indexUpdate, .enqueue]).p = { idx := 2, st := 0, res := none }
-    ∧ restart (run Node.init [.indexUpdate, .enqueue, .indexUpdate, .enqueue]).p = .errIndexAhead := by
+    ∧ restartOrig (run Node.init [.indexUpdate, .enqueue, .indexUpdate, .enqueue]).p = .errIndexAhead := by
   decide
 
-/-- Queue depth 1 is enough: accept one block and stop before its state commit (even directly
-after the index update, or after the results write): start-up dereferences the not yet
-constructed `vm.chain`. -/
-theorem c18_counterexample_depth1 :
-    restart (run Node.init [.indexUpdate]).p = .panicNil
-    ∧ restart (run Node.init [.indexUpdate, .enqueue]).p = .panicNil
-    ∧ restart (run Node.init [.indexUpdate, .enqueue, .writeResults]).p = .panicNil := by
+/-- one accepted block not yet committed: nil `vm.chain` dereferenced -/
+theorem c18_counterexample_depth1_unrepaired :
+    restartOrig (run Node.init [.indexUpdate]).p = .panicNil
+    ∧ restartOrig (run Node.init [.indexUpdate, .enqueue]).p = .panicNil
+    ∧ restartOrig (run Node.init [.indexUpdate, .enqueue, .writeResults]).p = .panicNil := by
   decide
 
-/-- a block whose state was committed but whose subscribers were not yet notified is never
-delivered if the index is ahead: with the start-up as it is, only `idx` would be re-notified
-(and the start-up fails anyway). Witness: blocks 1,2 accepted, crash after the commit of 1. -/
-theorem c18_counterexample_notification :
-    let n := run Node.init [.indexUpdate, .enqueue, .indexUpdate, .enqueue, .writeResults, .commitState]
-    n.p = { idx := 2, st := 1, res := some 1 } ∧ n.notified = [0] ∧ restart n.p = .panicNil := by
-  decide
+/-! ### Further repair design (model only) -/
 
-/-! ### Repair design (model only): full-strength statements -/
-
-/-- With the repaired start-up, restart succeeds after a crash at *every* point of *every*
-history and returns the never-crashed node's last accepted block. -/
-theorem repair_design_restart_succeeds_and_agrees (evs : List Ev) :
-    ∃ re, restartRepaired (run Node.init evs).p = .ok (run Node.init evs).p.idx re := by
-  obtain ⟨hle, _, _⟩ := reachable_markers evs
-  unfold restartRepaired
-  have : ¬ (run Node.init evs).p.idx < (run Node.init evs).p.st := by omega
-  simp [this]
-
-/-- and every accepted block is delivered at least once across the restart, each log in
-non-decreasing height order. -/
+/-- If the start-up also re-delivers the block at the state height, every accepted block reaches
+every subscriber at least once across a crash at *every* point of *every* history. -/
 theorem repair_design_subscribers_at_least_once_in_order (evs : List Ev) :
-    (∀ b, 1 ≤ b → b ≤ (run Node.init evs).p.idx → b ∈ (run Node.init evs).notified
-        ∨ b ∈ ([(run Node.init evs).p.st] ++ reprocess (run Node.init evs).p.st (run Node.init evs).p.idx ++ [(run Node.init evs).p.idx]))
-    ∧ (run Node.init evs).notified.Pairwise (· < ·)
+    (∃ re, restartRenotify (run Node.init evs).p = .ok (run Node.init evs).p.idx re)
+    ∧ (∀ b, 1 ≤ b → b ≤ (run Node.init evs).p.idx →
+        (b ∈ (run Node.init evs).notifiedA
+          ∨ b ∈ ([(run Node.init evs).p.st] ++ reprocess (run Node.init evs).p.st (run Node.init evs).p.idx ++ [(run Node.init evs).p.idx]))
+        ∧ (b ∈ (run Node.init evs).notifiedB
+          ∨ b ∈ ([(run Node.init evs).p.st] ++ reprocess (run Node.init evs).p.st (run Node.init evs).p.idx ++ [(run Node.init evs).p.idx])))
     ∧ ([(run Node.init evs).p.st] ++ reprocess (run Node.init evs).p.st (run Node.init evs).p.idx ++ [(run Node.init evs).p.idx]).Pairwise (· ≤ ·) := by
   obtain ⟨d, hn, hd, hq, hs⟩ := reachable_inv evs
   obtain ⟨hle, _, _⟩ := reachable_markers evs
-  refine ⟨?_, by rw [hn]; exact List.pairwise_lt_range, ?_⟩
+  refine ⟨?_, ?_, ?_⟩
+  · unfold restartRenotify
+    have : ¬ (run Node.init evs).p.idx < (run Node.init evs).p.st := by omega
+    simp [this]
   · intro b hb1 hb2
     rw [hn]
     simp only [List.mem_range, List.mem_append, List.mem_singleton, mem_reprocess]
-    rcases hs with ⟨_, h2, _⟩ | ⟨_, _, h2, _⟩ | ⟨_, _, h2, _⟩ <;> omega
+    rcases hs with ⟨_, h2, _, hA⟩ | ⟨_, _, h2, _, hA⟩ | ⟨_, _, h2, _, hA⟩ | ⟨_, _, h2, _, hA⟩
+    all_goals (rw [hA]; simp only [List.mem_range]; omega)
   · rw [List.pairwise_append, List.pairwise_append]
     refine ⟨⟨by simp, (reprocess_sorted _ _).imp (fun h => Nat.le_of_lt h), ?_⟩, by simp, ?_⟩
     · intro a ha b hb; simp at ha; rw [mem_reprocess] at hb; omega
@@ -185,9 +208,12 @@ theorem repair_design_subscribers_at_least_once_in_order (evs : List Ev) :
 
 /-! ### Non-vacuity -/
 
-/-- the hypothesis `idx = st` of the partial theorems holds in non-trivial reachable states -/
-example : (run Node.init [.indexUpdate, .enqueue, .writeResults, .commitState]).p = { idx := 1, st := 1, res := some 1 } := by decide
-example : restart (run Node.init [.indexUpdate, .enqueue, .writeResults, .commitState]).p = .ok 1 [1] := by decide
-example : (run Node.init [.indexUpdate, .enqueue, .writeResults, .commitState]).notified = [0] := by decide
+/-- index 3 ahead of the state, results one ahead: the repaired start-up re-processes 2,3,4 -/
+example : (run Node.init [.indexUpdate, .enqueue, .indexUpdate, .enqueue, .indexUpdate, .enqueue, .indexUpdate, .enqueue,
+    .writeResults, .commitState, .notifyA, .notifyB, .writeResults]).p = { idx := 4, st := 1, res := some 2 } := by decide
+example : restart { idx := 4, st := 1, res := some 2 } = .ok 4 [2, 3, 4, 4] := by decide
+/-- both disjuncts of the partial theorem's hypothesis occur with the index ahead / level -/
+example : (run Node.init [.indexUpdate, .enqueue, .indexUpdate, .enqueue, .writeResults]).stage = 1 := by decide
+example : (run Node.init [.indexUpdate, .enqueue, .writeResults, .commitState, .notifyA]).p = { idx := 1, st := 1, res := some 1 } := by decide
 
 end HyperModel.Props.C18
